@@ -31,12 +31,13 @@ type Controller struct {
 	cond    *sync.Cond
 	byGoid  map[uint64]*thread
 	threads []*thread
+	trapped int
 }
 
 var current atomic.Pointer[Controller]
 
 func New() *Controller {
-	c := &Controller{byGoid: map[uint64]*thread{}}
+	c := &Controller{byGoid: map[uint64]*thread{}, trapped: -1}
 	c.cond = sync.NewCond(&c.mu)
 	return c
 }
@@ -95,9 +96,60 @@ func self() (*Controller, *thread) {
 	return c, th
 }
 
+// trap: the next goroutine that is NOT under control and reaches operation `op` is adopted (becomes a
+// controlled thread and parks there). Used to hold a goroutine the code under test started itself.
+type trapState struct {
+	c  *Controller
+	op string
+}
+
+var trap atomic.Pointer[trapState]
+
+// TrapNext arms the trap for operation op.
+func (c *Controller) TrapNext(op string) { trap.Store(&trapState{c: c, op: op}) }
+
+// Trapped returns the id of the adopted thread once a goroutine has been caught (-1 before).
+func (c *Controller) Trapped() int {
+	c.mu.Lock()
+	defer c.mu.Unlock()
+	return c.trapped
+}
+
+// Release lets an adopted thread run free again (it is no longer under control).
+func (c *Controller) Release(id int) {
+	c.mu.Lock()
+	th := c.threads[id]
+	for g, t := range c.byGoid {
+		if t == th {
+			delete(c.byGoid, g)
+		}
+	}
+	th.state = stDone
+	c.mu.Unlock()
+	th.wake <- struct{}{}
+}
+
+func tryAdopt(op string) (*Controller, *thread) {
+	t := trap.Load()
+	if t == nil || t.op != op || !trap.CompareAndSwap(t, nil) {
+		return nil, nil
+	}
+	c := t.c
+	c.mu.Lock()
+	th := &thread{id: len(c.threads), wake: make(chan struct{}), state: stRunning}
+	c.threads = append(c.threads, th)
+	c.byGoid[goid()] = th
+	c.trapped = th.id
+	c.mu.Unlock()
+	return c, th
+}
+
 // Yield parks the calling goroutine in front of operation op until the controller schedules it.
 func Yield(op string) {
 	c, th := self()
+	if th == nil {
+		c, th = tryAdopt(op)
+	}
 	if th == nil || th.noYield > 0 {
 		return
 	}
